@@ -8,9 +8,12 @@ the state its predecessors left (`Chain` holds every account's sequence and ever
 transaction sees its `view` of it).  The per-transaction clauses of the property hold for EVERY
 element of EVERY sequence, on the state the prefix produced, and they add up.
 
-`runTxs` composes the single-transaction model `deliverTx` (which is what the correspondence
-harness compares with the real `runTx`) the way `FinalizeBlock` composes `runTx`; the composition
-itself is not replayed on the implementation.
+`runTxs` composes the single-transaction model `deliverTx` the way `FinalizeBlock` composes `runTx`,
+`checkTxs` composes `checkTx` the way the mempool's check state does.  Both compositions are
+replayed on the implementation by the `seq` / `mempool` ops of the `txfee` stream
+(harness/txfee_seq_test.go, PvModel/TxfeeSeqDriver.lean): 2–4 signed transactions in one block, in
+consecutive blocks, or arriving one after the other at the mempool, compared with `runTxs` /
+`checkTxs` after every block / arrival.
 -/
 import PvProofs.C08
 
@@ -376,6 +379,238 @@ theorem mempool_charges_only_admitted_txs (c0 : Chain) (items : List (Cfg × Tx)
       · have hp' : ¬ tx.payer = P := fun e => hp e.symm
         simp [hp, hp']
 
+/-! ### The clauses as a function of the element's fate
+
+`fateFeeDelta` / `fateAllow` (TxfeeSpec) are what the `seq` and `mempool` checkers of the
+correspondence driver evaluate on the states the REAL `FinalizeBlock` / `CheckTx` leave after every
+block / arrival (PvModel/TxfeeSeqDriver.lean: `blockClause`, `verdictArrival`).  For the model's
+`runTxs` they hold for every element of every sequence. -/
+
+theorem baseFee_eq_nil_of_isZero {floor : Coin} {gas : Nat} (h : (baseFee floor gas).isZero = true) :
+    baseFee floor gas = [] := by
+  by_cases h0 : floor.2 * gas = 0
+  · simp [baseFee, h0]
+  · exfalso
+    have h1 := isZero_iff.mp h floor.1
+    rw [baseFee_amount, if_pos rfl] at h1
+    exact h0 h1
+
+/-- The meter the ante handler hands on records the base fee itself (not just its amounts). -/
+theorem checkDeduct_base_eq {cfg : Cfg} {tx : Tx} {s s1 : St} {m : Meter}
+    (h : checkDeductBaseFee cfg tx s = .ok (s1, m)) : m.base = baseFee cfg.floor tx.gas := by
+  unfold checkDeductBaseFee at h
+  dsimp only at h
+  split at h
+  · cases h
+  · split at h
+    · cases h
+    · split at h
+      · cases h
+      · split at h
+        · split at h
+          · cases h
+          · cases h; rfl
+        · rename_i hz
+          cases h
+          exact (baseFee_eq_nil_of_isZero (by simpa using hz)).symm
+
+theorem ante_base_eq {cfg : Cfg} {tx : Tx} {chk : Bool} {s s1 : St} {m : Meter}
+    (h : anteHandle cfg tx chk s = .ok (s1, m)) : m.base = baseFee cfg.floor tx.gas := by
+  unfold anteHandle at h
+  cases hcd : checkDeductBaseFee cfg tx s with
+  | error e => simp only [hcd] at h; split_ifs at h
+  | ok p =>
+    obtain ⟨s0, m0⟩ := p
+    simp only [hcd] at h
+    have := checkDeduct_base_eq hcd
+    split_ifs at h <;> (cases h; exact this)
+
+theorem consumeMsgFees_base {cfg : Cfg} {tx : Tx} {m m' : Meter} {msg : RMsg}
+    (h : consumeMsgFees cfg tx m msg = .ok m') : m'.base = m.base := by
+  unfold consumeMsgFees at h
+  split at h
+  · cases h
+  · split_ifs at h
+    · cases h; rfl
+    · cases h
+      rw [(foldl_consumeFee _ _ _).2]
+      simp [Meter.consumeFee]
+    · cases h
+      rw [(foldl_consumeFee _ _ _).2]
+
+/-- Nothing the router or a handler does touches the record of the base fee charged. -/
+theorem runSteps_base_eq {cfg : Cfg} {tx : Tx} : ∀ (steps : List Step) {l l2 : Ledger} {m m2 : Meter},
+    runSteps cfg tx steps (l, m) = .ok (l2, m2) → m2.base = m.base
+  | [], l, l2, m, m2, h => by simp only [runSteps] at h; cases h; rfl
+  | .route msg :: rest, l, l2, m, m2, h => by
+    simp only [runSteps] at h
+    cases hc : consumeMsgFees cfg tx m msg with
+    | error e => simp [hc] at h
+    | ok m' =>
+      simp only [hc] at h
+      rw [runSteps_base_eq rest h, consumeMsgFees_base hc]
+  | .effect f :: rest, l, l2, m, m2, h => by
+    simp only [runSteps] at h
+    cases hf : f l with
+    | error e => simp [hf] at h
+    | ok l' =>
+      simp only [hf] at h
+      exact runSteps_base_eq rest h
+  | .consume typ fee :: rest, l, l2, m, m2, h => by
+    simp only [runSteps] at h
+    rw [runSteps_base_eq rest h]
+    unfold consumeMsgFee
+    split_ifs <;> simp [Meter.consumeFee]
+
+/-- The sweep uses the grant for declared − what the meter says was charged. -/
+theorem invoke_allow {cfg : Cfg} {tx : Tx} {m : Meter} {s s' : St} (h : invoke cfg tx m s = .ok s') :
+    getFeePayerUsingFeeGrant tx s.allow (Coins.sub tx.fee m.base) = .ok (tx.from, s'.allow) := by
+  unfold invoke at h
+  dsimp only at h
+  split at h
+  · cases h
+  · rename_i src allow' hg
+    have hsrc := getFeePayer_src hg
+    subst hsrc
+    split_ifs at h
+    · split at h
+      · cases h
+      · cases h; exact hg
+    · cases h; exact hg
+
+theorem useGranted_of_getFeePayer {tx : Tx} {g src : Addr} {a a' : Allow} {fee : Coins}
+    (hg : tx.granter = some g) (h : getFeePayerUsingFeeGrant tx a fee = .ok (src, a')) :
+    useGrantedFees a fee = .ok a' := by
+  unfold getFeePayerUsingFeeGrant at h
+  rw [hg] at h
+  dsimp only at h
+  split at h
+  · cases h
+  · rename_i a'' ha; cases h; exact ha
+
+/-- A delivery that does not succeed has no stages: what the ante handler left IS the result. -/
+theorem not_ok_stages (cfg : Cfg) (tx : Tx) (s : St) (h : (deliverTx cfg tx s).outcome ≠ .ok) :
+    (deliverTx cfg tx s).afterAnte = (deliverTx cfg tx s).final ∧
+    (deliverTx cfg tx s).afterMsgs = (deliverTx cfg tx s).final.ledger := by
+  unfold deliverTx at h ⊢
+  cases hA : anteHandle cfg tx false s with
+  | error e => simp
+  | ok p =>
+    obtain ⟨s1, m⟩ := p
+    simp only [hA] at h ⊢
+    by_cases ho : tx.oogMsgs = true
+    · simp [ho]
+    · simp only [ho, Bool.false_eq_true, if_false] at h ⊢
+      cases hR : runSteps cfg tx tx.steps (s1.ledger, m) with
+      | error e' => simp
+      | ok q =>
+        obtain ⟨l2, m2⟩ := q
+        simp only [hR] at h ⊢
+        cases hI : invoke cfg tx m2 { s1 with ledger := l2 } with
+        | error e' => simp
+        | ok s3 => simp [hI] at h
+
+/-- **Every element's fee-related balance change is what its fate prescribes.**  For every sequence
+`pre`, every next transaction and every account and denom: the change of the balance over the
+transaction, without what the handlers' own work did (which lies between `afterAnte` and
+`afterMsgs` and survives only on success), is `fateFeeDelta` of the transaction's fate — nothing
+when rejected, the base fee payer → collector when failed, the declared fee distributed when it
+succeeded. -/
+theorem seq_element_fee_delta_by_fate (c0 : Chain) (pre : List (Cfg × Tx)) (cfg : Cfg) (tx : Tx)
+    (hc : cfg.collector ≠ "") (hwf : StepsWf tx.steps) (a : Addr) (d : Denom) :
+    ((deliverTx cfg tx ((runTxs c0 pre).view tx)).afterAnte.ledger.bal a d - (runTxs c0 pre).ledger.bal a d) +
+      ((runTxs c0 (pre ++ [(cfg, tx)])).ledger.bal a d -
+        (deliverTx cfg tx ((runTxs c0 pre).view tx)).afterMsgs.bal a d) =
+    fateFeeDelta cfg tx (deliverTx cfg tx ((runTxs c0 pre).view tx)).outcome.fate a d := by
+  cases ho : (deliverTx cfg tx ((runTxs c0 pre).view tx)).outcome with
+  | ok =>
+    exact (seq_successful_tx_declared_fee_and_sequence c0 pre cfg tx hc hwf ho).1 a d
+  | failed e =>
+    have hne : (deliverTx cfg tx ((runTxs c0 pre).view tx)).outcome ≠ .ok := by rw [ho]; simp
+    obtain ⟨s1, s2⟩ := not_ok_stages cfg tx _ hne
+    have hb := (seq_failed_tx_base_fee_and_sequence_only c0 pre cfg tx e ho).1 a d
+    have hl : (runTxs c0 (pre ++ [(cfg, tx)])).ledger =
+        (deliverTx cfg tx ((runTxs c0 pre).view tx)).final.ledger := by rw [runTxs_snoc]; rfl
+    rw [s1, s2, ← hl, hb]
+    simp only [Outcome.fate, fateFeeDelta]
+    omega
+  | rejected e =>
+    have hne : (deliverTx cfg tx ((runTxs c0 pre).view tx)).outcome ≠ .ok := by rw [ho]; simp
+    obtain ⟨s1, s2⟩ := not_ok_stages cfg tx _ hne
+    have hl : (runTxs c0 (pre ++ [(cfg, tx)])).ledger =
+        (deliverTx cfg tx ((runTxs c0 pre).view tx)).final.ledger := by rw [runTxs_snoc]; rfl
+    have hr := seq_rejected_tx_changes_nothing c0 pre cfg tx e ho
+    rw [s1, s2, ← hl, hr]
+    simp only [Outcome.fate, fateFeeDelta]
+    omega
+
+/-- **Every element leaves of the allowance it used what its fate prescribes, and no other
+allowance moves.**  For every sequence and every next transaction with fee granter `g`: rejected
+⇒ the allowance g → payer is what it was; failed ⇒ charged exactly the base fee; succeeded ⇒
+charged the base fee (ante handler) and then declared − base (sweep), both uses accepted; the
+allowance of every other (granter, grantee) pair is unchanged whatever happened. -/
+theorem seq_element_allowance_by_fate (c0 : Chain) (pre : List (Cfg × Tx)) (cfg : Cfg) (tx : Tx) (g : Addr)
+    (hg : tx.granter = some g) :
+    fateAllow cfg tx (deliverTx cfg tx ((runTxs c0 pre).view tx)).outcome.fate ((runTxs c0 pre).allows g tx.payer) =
+      some ((runTxs c0 (pre ++ [(cfg, tx)])).allows g tx.payer) ∧
+    (∀ g' p, ¬ (tx.granter = some g' ∧ p = tx.payer) →
+      (runTxs c0 (pre ++ [(cfg, tx)])).allows g' p = (runTxs c0 pre).allows g' p) := by
+  refine ⟨?_, ?_⟩
+  · have hv : ((runTxs c0 pre).view tx).allow = (runTxs c0 pre).allows g tx.payer := by
+      simp [Chain.view, hg]
+    have hn : (runTxs c0 (pre ++ [(cfg, tx)])).allows g tx.payer =
+        (deliverTx cfg tx ((runTxs c0 pre).view tx)).final.allow := by
+      rw [runTxs_snoc]; simp [deliverIn, Chain.put, hg]
+    cases ho : (deliverTx cfg tx ((runTxs c0 pre).view tx)).outcome with
+    | rejected e =>
+      rw [seq_rejected_tx_changes_nothing c0 pre cfg tx e ho]
+      simp [Outcome.fate, fateAllow]
+    | failed e =>
+      obtain ⟨_, _, _, h4⟩ := failed_tx_charges_base_fee_only cfg tx _ e ho
+      rw [hv] at h4
+      have hu := useGranted_of_getFeePayer hg h4
+      rw [hn]
+      simp only [Outcome.fate, fateAllow, hu]
+    | ok =>
+      obtain ⟨m, m2, hA, hR, hI⟩ := success_stages cfg tx _ ho
+      obtain ⟨_, _, _, _, _, a6⟩ := ante_spec hA
+      rw [hv] at a6
+      have hu1 := useGranted_of_getFeePayer hg a6
+      have hI' := invoke_allow hI
+      rw [runSteps_base_eq tx.steps hR, ante_base_eq hA] at hI'
+      have hu2 := useGranted_of_getFeePayer hg hI'
+      dsimp only at hu2
+      rw [hn]
+      simp only [Outcome.fate, fateAllow, hu1, hu2]
+  · intro g' p hnp
+    rw [runTxs_snoc]; simp [deliverIn, Chain.put, hnp]
+
+/-- The mempool counterpart: an admitted arrival leaves of the allowance it used what is left after
+the base fee (the `failed` fate: only the ante handler has run), a refused one leaves it as it
+was. -/
+theorem mempool_arrival_allowance_by_fate (cfg : Cfg) (c : Chain) (tx : Tx) (g : Addr) (hg : tx.granter = some g) :
+    fateAllow cfg tx (if (checkIn cfg c tx).2.isNone then Fate.failed else Fate.rejected) (c.allows g tx.payer) =
+      some ((checkIn cfg c tx).1.allows g tx.payer) := by
+  have hv : (c.view tx).allow = c.allows g tx.payer := by simp [Chain.view, hg]
+  cases hC : (checkIn cfg c tx).2 with
+  | some e =>
+    rw [mempool_rejected_arrival_changes_nothing cfg c tx e hC]
+    simp [fateAllow]
+  | none =>
+    have hC' : (checkTx cfg tx (c.view tx)).2 = none := hC
+    unfold checkTx at hC'
+    cases hA : anteHandle cfg tx true (c.view tx) with
+    | error e => simp [hA] at hC'
+    | ok p =>
+      obtain ⟨s1, m⟩ := p
+      obtain ⟨_, _, _, _, _, a6⟩ := ante_spec hA
+      rw [hv] at a6
+      have hu := useGranted_of_getFeePayer hg a6
+      have hn : (checkIn cfg c tx).1.allows g tx.payer = s1.allow := by
+        simp [checkIn, checkTx, hA, Chain.put, hg]
+      rw [hn]
+      simp [fateAllow, hu]
+
 /-! ### Non-vacuity: concrete sequences that meet the hypotheses -/
 
 section Examples
@@ -426,6 +661,31 @@ example : EffectsConserve exTx.steps := by
   split at h
   · rename_i l'' hs; cases h; exact sendCoins_supply hs d
   · cases h
+
+-- `seq_element_fee_delta_by_fate` / `seq_element_allowance_by_fate`: a granted transaction (G → P,
+-- allowance 10 hotdog + 300 nhash) that succeeds is charged the base fee 200 and then the rest of
+-- the declared fee (10 hotdog + 287 nhash): 13 nhash are left; one that fails is charged the base
+-- fee only: 10 hotdog + 100 nhash are left
+def exTxG : Tx := { exTx with granter := some "G" }
+def exFailG : Tx := { exFail with granter := some "G" }
+def exChainG : Chain :=
+  { ledger := exStG.ledger,
+    allows := fun g p => if g = "G" ∧ p = "P" then .lim [("hotdog", 10), ("nhash", 300)] else .none,
+    seqs := fun _ => 0 }
+example : exTxG.granter = some "G" ∧ exCfg.collector ≠ "" ∧
+    (deliverTx exCfg exTxG (exChainG.view exTxG)).outcome = .ok ∧
+    (match (runTxs exChainG [(exCfg, exTxG)]).allows "G" "P" with
+      | .lim l => decide (Coins.amountOf l "nhash" = 13) && decide (Coins.amountOf l "hotdog" = 0)
+      | _ => false) = true := by decide
+example : (deliverTx exCfg exFailG (exChainG.view exFailG)).outcome = .failed .funds ∧
+    (match (runTxs exChainG [(exCfg, exFailG)]).allows "G" "P" with
+      | .lim l => decide (Coins.amountOf l "nhash" = 100) && decide (Coins.amountOf l "hotdog" = 10)
+      | _ => false) = true := by decide
+-- … and at the mempool: admitted, the allowance charged the base fee
+example : (checkIn exCfg exChainG exTxG).2 = none ∧
+    (match (checkIn exCfg exChainG exTxG).1.allows "G" "P" with
+      | .lim l => decide (Coins.amountOf l "nhash" = 100) && decide (Coins.amountOf l "hotdog" = 10)
+      | _ => false) = true := by decide
 
 end Examples
 
